@@ -4,23 +4,28 @@ import Sqljson.Model.Api
 
 `Props/C07.lean` shows, one step at a time, that lax mode absorbs structural mismatches.  This file
 proves the unbounded statement: for a whole *accessor path* (`Accessor`, below; `AccessorF` adds
-filters) evaluated in lax mode (`c.lax = true`, `ignoreStructuralErrors = true` as `newExec` sets
-it), the executor returns no error and never `statusFailed`, for every document, every result list
-and every fuel — unless the run was cancelled (`sawCancel`) or the model ran out of fuel (`oof`),
-and both flags are sticky.
+filters and predicates) evaluated in lax mode (`c.lax = true`, `ignoreStructuralErrors = true` as
+`newExec` sets it), the executor returns no error and never `statusFailed`, for every document of
+the class, every result list and every fuel — unless the run was cancelled (`sawCancel`) or the
+model ran out of fuel (`oof`), and both flags are sticky.
 
 In strict mode the same induction gives the error class: the only error such a path can return is
 the suppressible one (`Err.verbose`); it never panics in either mode.
 
 Structure (as in `Lemmas/Good.lean`): one lemma per Go function, "if the recursive calls satisfy the
-invariant, so does this function"; loops by `foldl_inv_mem`; `lt_all` by induction on fuel.
+invariant, so does this function"; loops by `foldl_inv_mem`; `lt_all` by induction on fuel over the
+three dispatchers `xItem`, `xBool`, `xAny`.
 
-Everything is relative to
+Everything is relative to (`Env`)
 * a class of documents `D` closed under taking members and elements (`DocClass`), to which the root,
-  the current item, the value and the items already in the result list belong — the invariant also
-  says that the result list stays inside `D` (needed for the operands of predicates);
-* a flag `ff`: whether filters are allowed in the path (`AccG ff`); if so, `FilterOK`: every
-  `like_regex` pattern compiles and comparing two items of `D` neither errs nor panics.
+  the current item and the value belong, and a class `F ⊇ D` of items for the result list — the
+  invariant also says that the result list stays inside `F` (with predicates, `F = D`: their operands
+  are result lists);
+* a flag `ff`: whether filters and predicates are allowed in the path (`AccG ff`); if so,
+  `FilterOK`: every `like_regex` pattern compiles and comparing two items of `D` neither errs nor
+  panics.
+
+The property-facing statements are in `Props/C07b.lean`.
 -/
 
 namespace Sqljson
@@ -33,11 +38,13 @@ def dirty (s : St) : Bool := s.oof || s.sawCancel
 
 /-! ## the syntactic classes -/
 
-/-- a subscript bound: an integer literal in the int32 range, or `last`; nothing chained to it.
+/-- a subscript bound: an integer literal in the int32 range, a finite numeric literal whose
+    truncation is in the int32 range, or `last`; nothing chained to it.
     (A literal outside the int32 range is the error "array subscript is out of integer range" in
     lax mode as well — `C14.index_range`; so is any bound that does not evaluate to a number.) -/
 def Bound : Node → Bool
   | .integer i none => Num.inInt32 i
+  | .numeric x none => !x.isInf && !x.isNaN && Num.inInt32 (F64.toInt64 x)
   | .const .last none => true
   | _ => false
 
@@ -72,7 +79,7 @@ def isPredOp : BinOp → Bool
 
 mutual
   /-- a chain made only of: root `$`, current `@`, `.key`, `.*`, `[*]`, `.**{a to b}`, subscripts
-      `[i, j to k, last]` whose bounds are int32 literals or `last`, literals, `.type()`, `.size()`
+      `[i, j to k, last]` whose bounds are numeric literals in the int32 range or `last`, literals, `.type()`, `.size()`
       and — if `ff` — filters `?(p)` and predicates `p` in chain position (`$.a == 1`, `exists($.a)`),
       with `p` a predicate `PredG`:
       no arithmetic, no variables, no other methods -/
@@ -141,14 +148,18 @@ structure FilterOK (c : Ctx) (D : Item → Prop) : Prop where
   regex : ∀ p fl t, (c.regexMatch p fl t).isSome = true
   cmp : ∀ op l r, isCompareOp op = true → D l → D r → CbClean (compareItems c op l r)
 
-/-- the standing assumptions of the induction -/
-structure Env (D : Item → Prop) (c : Ctx) (ff : Bool) : Prop where
+/-- the standing assumptions of the induction: `D` is the class of the documents, `F ⊇ D` the class of
+    the items in the result list (all items, if there are no predicates whose operands they could become) -/
+structure Env (D F : Item → Prop) (c : Ctx) (ff : Bool) : Prop where
   doc : DocClass D
   root : D c.root
   /-- `last` is evaluated to `len - 1` and then read back through `getJSONInt32`, so `$[last]` on an
       array of more than 2^31 elements is the "out of integer range" error even in lax mode -/
   len : c.lax = true → ∀ xs, D (.arr xs) → xs.length ≤ 2147483648
   filt : ff = true → FilterOK c D
+  toF : ∀ x, D x → F x
+  farr : ∀ xs, F (.arr xs) → ∀ x ∈ xs, F x
+  ofF : ff = true → ∀ x, F x → D x
 
 /-- every item of the result list is in the class -/
 def AllD (D : Item → Prop) (f : Found) : Prop := ∀ l, f = some l → ∀ x ∈ l, D x
@@ -173,8 +184,8 @@ theorem DocClass.coll {D : Item → Prop} (hD : DocClass D) {v : Item} (h : D v)
   | obj kvs => exact hD.members kvs h
   | _ => intro x hx; simp [Exec.collection] at hx
 
-theorem DocClass.unwrap {D : Item → Prop} (hD : DocClass D) {l : List Item} (h : ∀ x ∈ l, D x) :
-    ∀ x ∈ Exec.unwrapSeq l, D x := by
+theorem unwrapSeq_closed {F : Item → Prop} (harr : ∀ xs, F (.arr xs) → ∀ x ∈ xs, F x) {l : List Item}
+    (h : ∀ x ∈ l, F x) : ∀ x ∈ Exec.unwrapSeq l, F x := by
   induction l with
   | nil => intro x hx; simp [Exec.unwrapSeq] at hx
   | cons y ys ih =>
@@ -185,7 +196,7 @@ theorem DocClass.unwrap {D : Item → Prop} (hD : DocClass D) {l : List Item} (h
     | arr xs =>
       simp only [Exec.unwrapSeq] at hx
       rcases List.mem_append.mp hx with h1 | h1
-      · exact hD.arr xs hy x h1
+      · exact harr xs hy x h1
       · exact hys x h1
     | _ =>
       change x ∈ _ :: Exec.unwrapSeq ys at hx
@@ -254,24 +265,26 @@ def Out3 (c : Ctx) (s st : St) (status : Status) (err : Option Err) : Prop :=
   Keep s st ∧ (dirty st = false → (err = none ∨ err = some .verbose) ∧ (Lx c s → err = none ∧ status ≠ .failed))
 
 /-- invariant of an executor call: `Out3`, and the result list stays in the class -/
-def Out (D : Item → Prop) (c : Ctx) (s : St) (r : Res) : Prop := Out3 c s r.st r.status r.err ∧ AllD D r.found
+def Out (F : Item → Prop) (c : Ctx) (s : St) (r : Res) : Prop := Out3 c s r.st r.status r.err ∧ AllD F r.found
 
 /-- invariant of a predicate evaluation -/
 def OutP (c : Ctx) (s st : St) (err : Option Err) : Prop :=
   Keep s st ∧ (dirty st = false → (err = none ∨ err = some .verbose) ∧ (Lx c s → err = none))
 
-/-- a subscript bound evaluates to one integer, in the int32 range if the innermost array is not huge -/
+/-- a subscript bound evaluates to one number, which `getJSONInt32` reads as an int32 if the innermost
+    array is not huge (and never rejects as invalid) -/
 def BoundOut (s : St) (r : Res) : Prop :=
   Keep s r.st ∧ (dirty r.st = false → r.err = none ∧ r.status ≠ .failed ∧
-    ∃ i, r.found = some [.int i] ∧ (s.innermost ≤ 2147483648 → Num.inInt32 i = true))
+    ∃ x, r.found = some [x] ∧ Num.getJSONInt32 x ≠ .error .invalid ∧
+      (s.innermost ≤ 2147483648 → ∃ i, Num.getJSONInt32 x = .ok i))
 
-def LTI (D : Item → Prop) (c : Ctx) (ff : Bool) (item : ItemK) : Prop :=
-  (∀ s n v f u, AccG ff n = true → D v → D s.current → AllD D f → Out D c s (item s n v f u)) ∧
+def LTI (D F : Item → Prop) (c : Ctx) (ff : Bool) (item : ItemK) : Prop :=
+  (∀ s n v f u, AccG ff n = true → D v → D s.current → AllD F f → Out F c s (item s n v f u)) ∧
   (∀ s n v u, Bound n = true → 0 ≤ s.innermost → BoundOut s (item s n v (some []) u))
 
-def LTA (D : Item → Prop) (c : Ctx) (ff : Bool) (any : AnyK) : Prop :=
-  ∀ s node vs f l a b i u, AccGOpt ff node = true → (∀ x ∈ vs, D x) → D s.current → AllD D f →
-    Out D c s (any s node vs f l a b i u)
+def LTA (D F : Item → Prop) (c : Ctx) (ff : Bool) (any : AnyK) : Prop :=
+  ∀ s node vs f l a b i u, AccGOpt ff node = true → (∀ x ∈ vs, D x) → D s.current → AllD F f →
+    Out F c s (any s node vs f l a b i u)
 
 def LTB (D : Item → Prop) (c : Ctx) (ff : Bool) (bool : BoolK) : Prop :=
   ∀ s n v chn, PredG ff n = true → (chn = false → n.next = none) → D v → D s.current →
@@ -290,8 +303,8 @@ theorem Out3.tail {c : Ctx} {s s1 st : St} {status : Status} {err : Option Err} 
     (h : Out3 c s1 st status err) : Out3 c s st status err :=
   ⟨hk.trans h.1, fun hd => ⟨(h.2 hd).1, fun hlx => (h.2 hd).2 (hlx.keep hk)⟩⟩
 
-theorem Out.tail {D : Item → Prop} {c : Ctx} {s s1 : St} {r : Res} (hk : Keep s s1) (h : Out D c s1 r) :
-    Out D c s r := ⟨Out3.tail hk h.1, h.2⟩
+theorem Out.tail {F : Item → Prop} {c : Ctx} {s s1 : St} {r : Res} (hk : Keep s s1) (h : Out F c s1 r) :
+    Out F c s r := ⟨Out3.tail hk h.1, h.2⟩
 
 theorem OutP.tail {c : Ctx} {s s1 st : St} {err : Option Err} (hk : Keep s s1)
     (h : OutP c s1 st err) : OutP c s st err :=
@@ -309,15 +322,15 @@ theorem Out3.ofDirty {c : Ctx} {s st : St} (hk : Keep s st) (hd : dirty st = tru
     (err : Option Err) : Out3 c s st status err :=
   ⟨hk, fun h => by rw [hd] at h; cases h⟩
 
-theorem returnVerboseError_out {D : Item → Prop} {c : Ctx} {s s1 : St} (hk : Keep s s1) {f : Found}
-    (hf : AllD D f) (hl : ¬ Lx c s) : Out D c s (returnVerboseError s1 f) := by
+theorem returnVerboseError_out {F : Item → Prop} {c : Ctx} {s s1 : St} (hk : Keep s s1) {f : Found}
+    (hf : AllD F f) (hl : ¬ Lx c s) : Out F c s (returnVerboseError s1 f) := by
   unfold returnVerboseError
   split
   · exact ⟨Out3.ret hk _ _ (Or.inr rfl) (fun h => absurd h hl), hf⟩
   · exact ⟨Out3.ret hk _ _ (Or.inl rfl) (fun h => absurd h hl), hf⟩
 
-theorem structural_out {D : Item → Prop} {c : Ctx} {s s1 : St} (hk : Keep s s1) {f : Found} (hf : AllD D f) :
-    Out D c s (structural s1 f) := by
+theorem structural_out {F : Item → Prop} {c : Ctx} {s s1 : St} (hk : Keep s s1) {f : Found} (hf : AllD F f) :
+    Out F c s (structural s1 f) := by
   unfold structural
   split
   · rename_i hig
@@ -327,57 +340,57 @@ theorem structural_out {D : Item → Prop} {c : Ctx} {s s1 : St} (hk : Keep s s1
 /-! ## chain steps -/
 
 section Steps
-variable {D : Item → Prop} {c : Ctx} {ff : Bool}
+variable {D F : Item → Prop} {c : Ctx} {ff : Bool}
 
-theorem executeNextItem_lt {item : ItemK} (hI : LTI D c ff item) (s : St) (nx : Option Node) (v : Item)
-    (f : Found) (hn : AccGOpt ff nx = true) (hv : D v) (hcur : D s.current) (hf : AllD D f) :
-    Out D c s (executeNextItem c item s nx v f) := by
+theorem executeNextItem_lt (E : Env D F c ff) {item : ItemK} (hI : LTI D F c ff item) (s : St) (nx : Option Node) (v : Item)
+    (f : Found) (hn : AccGOpt ff nx = true) (hv : D v) (hcur : D s.current) (hf : AllD F f) :
+    Out F c s (executeNextItem c item s nx v f) := by
   unfold executeNextItem
   split
   · exact hI.1 _ _ _ _ _ (by simpa [AccGOpt] using hn) hv hcur hf
-  · exact ⟨Out3.ok (Keep.refl s) _ (by simp), hf.append hv⟩
+  · exact ⟨Out3.ok (Keep.refl s) _ (by simp), hf.append (E.toF _ hv)⟩
 
 /-- the rest of the chain, entered from a state reached inside a function started at `s` -/
-theorem next_from {item : ItemK} (hI : LTI D c ff item) {s s1 : St} (hk : Keep s s1)
+theorem next_from (E : Env D F c ff) {item : ItemK} (hI : LTI D F c ff item) {s s1 : St} (hk : Keep s s1)
     (nx : Option Node) (v : Item) (f : Found) (hn : AccGOpt ff nx = true) (hv : D v) (hcur : D s.current)
-    (hf : AllD D f) : Out D c s (executeNextItem c item s1 nx v f) :=
-  Out.tail hk (executeNextItem_lt hI s1 nx v f hn hv (by rw [hk.current]; exact hcur) hf)
+    (hf : AllD F f) : Out F c s (executeNextItem c item s1 nx v f) :=
+  Out.tail hk (executeNextItem_lt E hI s1 nx v f hn hv (by rw [hk.current]; exact hcur) hf)
 
-theorem item_from {item : ItemK} (hI : LTI D c ff item) {s s1 : St} (hk : Keep s s1)
+theorem item_from {item : ItemK} (hI : LTI D F c ff item) {s s1 : St} (hk : Keep s s1)
     (n : Node) (v : Item) (f : Found) (u : Bool) (hn : AccG ff n = true) (hv : D v) (hcur : D s.current)
-    (hf : AllD D f) : Out D c s (item s1 n v f u) :=
+    (hf : AllD F f) : Out F c s (item s1 n v f u) :=
   Out.tail hk (hI.1 s1 n v f u hn hv (by rw [hk.current]; exact hcur) hf)
 
-theorem any_from {any : AnyK} (hA : LTA D c ff any) {s s1 : St} (hk : Keep s s1)
+theorem any_from {any : AnyK} (hA : LTA D F c ff any) {s s1 : St} (hk : Keep s s1)
     (node : Option Node) (vs : List Item) (f : Found) (l a b : Nat) (i u : Bool)
-    (hn : AccGOpt ff node = true) (hvs : ∀ x ∈ vs, D x) (hcur : D s.current) (hf : AllD D f) :
-    Out D c s (any s1 node vs f l a b i u) :=
+    (hn : AccGOpt ff node = true) (hvs : ∀ x ∈ vs, D x) (hcur : D s.current) (hf : AllD F f) :
+    Out F c s (any s1 node vs f l a b i u) :=
   Out.tail hk (hA s1 node vs f l a b i u hn hvs (by rw [hk.current]; exact hcur) hf)
 
 theorem withBaseObject_out (s : St) (a : Nat) (i : Int) (k : St → Res)
-    (h : Out D c { s with baseAddr := a, baseId := i } (k { s with baseAddr := a, baseId := i })) :
-    Out D c s (withBaseObject s a i k) := by
+    (h : Out F c { s with baseAddr := a, baseId := i } (k { s with baseAddr := a, baseId := i })) :
+    Out F c s (withBaseObject s a i k) := by
   unfold withBaseObject
   exact ⟨⟨((Keep.base s a i).trans h.1.1).trans (Keep.base _ _ _), fun hd => h.1.2 hd⟩, h.2⟩
 
-theorem execLiteral_lt {item : ItemK} (hI : LTI D c ff item) (s : St) (nx : Option Node) (lit : Item)
-    (f : Found) (hn : AccGOpt ff nx = true) (hlit : D lit) (hcur : D s.current) (hf : AllD D f) :
-    Out D c s (execLiteral c item s nx lit f) := by
+theorem execLiteral_lt (E : Env D F c ff) {item : ItemK} (hI : LTI D F c ff item) (s : St) (nx : Option Node) (lit : Item)
+    (f : Found) (hn : AccGOpt ff nx = true) (hlit : D lit) (hcur : D s.current) (hf : AllD F f) :
+    Out F c s (execLiteral c item s nx lit f) := by
   unfold execLiteral
   split
   · exact ⟨Out3.ok (Keep.refl s) _ (by simp), hf⟩
-  · exact next_from hI (Keep.refl s) nx lit f hn hlit hcur hf
+  · exact next_from E hI (Keep.refl s) nx lit f hn hlit hcur hf
 
-theorem execKeyNode_lt (E : Env D c ff) {item : ItemK} {any : AnyK} (hI : LTI D c ff item) (hA : LTA D c ff any)
+theorem execKeyNode_lt (E : Env D F c ff) {item : ItemK} {any : AnyK} (hI : LTI D F c ff item) (hA : LTA D F c ff any)
     (s : St) (n : Node) (key : List Char) (nx : Option Node) (v : Item) (f : Found) (unwrap : Bool)
-    (hself : AccG ff n = true) (hn : AccGOpt ff nx = true) (hv : D v) (hcur : D s.current) (hf : AllD D f) :
-    Out D c s (execKeyNode c item any s n key nx v f unwrap) := by
+    (hself : AccG ff n = true) (hn : AccGOpt ff nx = true) (hv : D v) (hcur : D s.current) (hf : AllD F f) :
+    Out F c s (execKeyNode c item any s n key nx v f unwrap) := by
   unfold execKeyNode
   split
   · rename_i kvs
     split
     · rename_i val hval
-      exact next_from hI (Keep.refl s) nx val f hn (E.doc.lookup kvs key val hv hval) hcur hf
+      exact next_from E hI (Keep.refl s) nx val f hn (E.doc.lookup kvs key val hv hval) hcur hf
     · split
       · rename_i hig
         have hnl : ¬ Lx c s := fun h => by simp [h.2] at hig
@@ -391,10 +404,10 @@ theorem execKeyNode_lt (E : Env D c ff) {item : ItemK} {any : AnyK} (hI : LTI D 
     · exact structural_out (Keep.refl s) hf
   · exact structural_out (Keep.refl s) hf
 
-theorem execAnyKey_lt (E : Env D c ff) {any : AnyK} (hA : LTA D c ff any) (s : St)
+theorem execAnyKey_lt (E : Env D F c ff) {any : AnyK} (hA : LTA D F c ff any) (s : St)
     (n : Node) (nx : Option Node) (v : Item) (f : Found) (unwrap : Bool)
-    (hself : AccG ff n = true) (hn : AccGOpt ff nx = true) (hv : D v) (hcur : D s.current) (hf : AllD D f) :
-    Out D c s (execAnyKey c any s n nx v f unwrap) := by
+    (hself : AccG ff n = true) (hn : AccGOpt ff nx = true) (hv : D v) (hcur : D s.current) (hf : AllD F f) :
+    Out F c s (execAnyKey c any s n nx v f unwrap) := by
   unfold execAnyKey
   split
   · rename_i kvs
@@ -406,49 +419,49 @@ theorem execAnyKey_lt (E : Env D c ff) {any : AnyK} (hA : LTA D c ff any) (s : S
     · exact structural_out (Keep.refl s) hf
   · exact structural_out (Keep.refl s) hf
 
-theorem execAnyArray_lt (E : Env D c ff) {item : ItemK} {any : AnyK} (hI : LTI D c ff item) (hA : LTA D c ff any)
+theorem execAnyArray_lt (E : Env D F c ff) {item : ItemK} {any : AnyK} (hI : LTI D F c ff item) (hA : LTA D F c ff any)
     (s : St) (nx : Option Node) (v : Item) (f : Found) (hn : AccGOpt ff nx = true)
-    (hv : D v) (hcur : D s.current) (hf : AllD D f) :
-    Out D c s (execAnyArray c item any s nx v f) := by
+    (hv : D v) (hcur : D s.current) (hf : AllD F f) :
+    Out F c s (execAnyArray c item any s nx v f) := by
   unfold execAnyArray
   split
   · rename_i xs
     exact any_from hA (Keep.refl s) nx xs f 1 1 1 false c.lax hn (E.doc.arr xs hv) hcur hf
   · split
-    · exact next_from hI (Keep.refl s) nx v f hn hv hcur hf
+    · exact next_from E hI (Keep.refl s) nx v f hn hv hcur hf
     · exact structural_out (Keep.refl s) hf
 
-theorem execConstNode_lt (E : Env D c ff) {item : ItemK} {any : AnyK} (hI : LTI D c ff item) (hA : LTA D c ff any)
+theorem execConstNode_lt (E : Env D F c ff) {item : ItemK} {any : AnyK} (hI : LTI D F c ff item) (hA : LTA D F c ff any)
     (s : St) (n : Node) (k : Const) (nx : Option Node) (v : Item) (f : Found) (unwrap : Bool)
     (hself : AccG ff n = true) (hk : accConst k = true) (hn : AccGOpt ff nx = true)
-    (hv : D v) (hcur : D s.current) (hf : AllD D f) :
-    Out D c s (execConstNode c item any s n k nx v f unwrap) := by
+    (hv : D v) (hcur : D s.current) (hf : AllD F f) :
+    Out F c s (execConstNode c item any s n k nx v f unwrap) := by
   unfold execConstNode
   cases k <;> simp only
   · refine withBaseObject_out s _ _ _ ?_
-    exact next_from hI (Keep.refl _) nx c.root f hn E.root hcur hf
-  · exact next_from hI (Keep.refl s) nx s.current f hn hcur hcur hf
+    exact next_from E hI (Keep.refl _) nx c.root f hn E.root hcur hf
+  · exact next_from E hI (Keep.refl s) nx s.current f hn hcur hcur hf
   · simp [accConst] at hk
   · exact execAnyArray_lt E hI hA _ _ _ _ hn hv hcur hf
   · exact execAnyKey_lt E hA _ _ _ _ _ _ hself hn hv hcur hf
-  · exact execLiteral_lt hI _ _ _ _ hn (E.doc.bool _) hcur hf
-  · exact execLiteral_lt hI _ _ _ _ hn (E.doc.bool _) hcur hf
-  · exact execLiteral_lt hI _ _ _ _ hn E.doc.null hcur hf
+  · exact execLiteral_lt E hI _ _ _ _ hn (E.doc.bool _) hcur hf
+  · exact execLiteral_lt E hI _ _ _ _ hn (E.doc.bool _) hcur hf
+  · exact execLiteral_lt E hI _ _ _ _ hn E.doc.null hcur hf
 
-theorem execMethodNode_lt (E : Env D c ff) {item : ItemK} {any : AnyK} (hI : LTI D c ff item) (s : St)
+theorem execMethodNode_lt (E : Env D F c ff) {item : ItemK} {any : AnyK} (hI : LTI D F c ff item) (s : St)
     (n : Node) (m : Method) (nx : Option Node) (v : Item) (f : Found) (unwrap : Bool)
-    (hm : accMethod m = true) (hn : AccGOpt ff nx = true) (hcur : D s.current) (hf : AllD D f) :
-    Out D c s (execMethodNode c item any s n m nx v f unwrap) := by
+    (hm : accMethod m = true) (hn : AccGOpt ff nx = true) (hcur : D s.current) (hf : AllD F f) :
+    Out F c s (execMethodNode c item any s n m nx v f unwrap) := by
   unfold execMethodNode
   cases m <;> simp [accMethod] at hm <;> simp only
   · unfold execMethodSize
     split
-    · exact next_from hI (Keep.refl s) nx _ f hn (E.doc.int _) hcur hf
+    · exact next_from E hI (Keep.refl s) nx _ f hn (E.doc.int _) hcur hf
     · split
       · rename_i hcond
         exact returnVerboseError_out (Keep.refl s) hf (fun h => by simp [h.1] at hcond)
-      · exact next_from hI (Keep.refl s) nx _ f hn (E.doc.int _) hcur hf
-  · exact next_from hI (Keep.refl s) nx _ f hn (E.doc.str _) hcur hf
+      · exact next_from E hI (Keep.refl s) nx _ f hn (E.doc.int _) hcur hf
+  · exact next_from E hI (Keep.refl s) nx _ f hn (E.doc.str _) hcur hf
 
 /-! ## `.**` and the generic element loop -/
 
@@ -457,18 +470,18 @@ theorem Out3.restoreIgn {s st : St} {status : Status} {err : Option Err}
     (h : Out3 c s st status err) : Out3 c s { st with ignoreSE := s.ignoreSE } status err :=
   ⟨⟨h.1.current, h.1.innermost, fun h' => h', h.1.panicked, h.1.budget, h.1.mono⟩, fun hd => h.2 hd⟩
 
-theorem Out.restoreIgn {s : St} {r : Res} (h : Out D c s r) :
-    Out D c s { r with st := { r.st with ignoreSE := s.ignoreSE } } := ⟨Out3.restoreIgn h.1, h.2⟩
+theorem Out.restoreIgn {s : St} {r : Res} (h : Out F c s r) :
+    Out F c s { r with st := { r.st with ignoreSE := s.ignoreSE } } := ⟨Out3.restoreIgn h.1, h.2⟩
 
 /-- loop invariant of the element loops: an early return satisfies the invariant, and so does the
     running tuple (state, result list, status, error) -/
-def AInv (D : Item → Prop) (c : Ctx) (s : St) (a : AAcc) : Prop :=
-  (∀ r, a.ret = some r → Out D c s r) ∧ (a.ret = none → Out3 c s a.st a.res a.err ∧ AllD D a.found)
+def AInv (F : Item → Prop) (c : Ctx) (s : St) (a : AAcc) : Prop :=
+  (∀ r, a.ret = some r → Out F c s r) ∧ (a.ret = none → Out3 c s a.st a.res a.err ∧ AllD F a.found)
 
-theorem anyVisit_inv {item : ItemK} (hI : LTI D c ff item) (node : Option Node)
+theorem anyVisit_inv (E : Env D F c ff) {item : ItemK} (hI : LTI D F c ff item) (node : Option Node)
     (level first last : Nat) (ignore unwrapNext : Bool) (s : St) (a : AAcc) (v : Item)
-    (hn : AccGOpt ff node = true) (hv : D v) (hcur : D s.current) (h : AInv D c s a)
-    (hnone : a.ret = none) : AInv D c s (anyVisit item node level first last ignore unwrapNext a v) := by
+    (hn : AccGOpt ff node = true) (hv : D v) (hcur : D s.current) (h : AInv F c s a)
+    (hnone : a.ret = none) : AInv F c s (anyVisit item node level first last ignore unwrapNext a v) := by
   unfold anyVisit
   obtain ⟨ha, haf⟩ := h.2 hnone
   split
@@ -480,7 +493,7 @@ theorem anyVisit_inv {item : ItemK} (hI : LTI D c ff item) (node : Option Node)
         subst hs1; split
         · exact Keep.setIgn _
         · exact Keep.refl _
-      have hr : Out D c s (item s1 n v a.found unwrapNext) :=
+      have hr : Out F c s (item s1 n v a.found unwrapNext) :=
         item_from hI (ha.1.trans hk1) n v a.found unwrapNext (by simpa [AccGOpt] using hn) hv hcur haf
       split
       · exact ⟨fun r hr' => by simp at hr'; subst hr'; exact hr, fun h' => by simp at h'⟩
@@ -489,7 +502,7 @@ theorem anyVisit_inv {item : ItemK} (hI : LTI D c ff item) (node : Option Node)
       · rename_i l hl
         refine ⟨fun r hr' => by simp [hnone] at hr', fun _ => ⟨?_, ?_⟩⟩
         · exact ⟨ha.1, fun hd => ⟨(ha.2 hd).1, fun hlx => ⟨((ha.2 hd).2 hlx).1, by simp⟩⟩⟩
-        · have := haf.append hv
+        · have := haf.append (E.toF _ hv)
           rw [hl] at this
           exact this
       · refine ⟨fun r hr' => ?_, fun h' => by simp at h'⟩
@@ -497,47 +510,47 @@ theorem anyVisit_inv {item : ItemK} (hI : LTI D c ff item) (node : Option Node)
         exact ⟨Out3.ok ha.1 _ (by simp), AllD.none⟩
   · exact h
 
-theorem anyDescend_inv (E : Env D c ff) {any : AnyK} (hA : LTA D c ff any) (node : Option Node)
+theorem anyDescend_inv (E : Env D F c ff) {any : AnyK} (hA : LTA D F c ff any) (node : Option Node)
     (level first last : Nat) (ignore unwrapNext : Bool) (s : St) (a : AAcc) (v : Item)
-    (hn : AccGOpt ff node = true) (hv : D v) (hcur : D s.current) (h : AInv D c s a)
-    (hnone : a.ret = none) : AInv D c s (anyDescend any node level first last ignore unwrapNext a v) := by
+    (hn : AccGOpt ff node = true) (hv : D v) (hcur : D s.current) (h : AInv F c s a)
+    (hnone : a.ret = none) : AInv F c s (anyDescend any node level first last ignore unwrapNext a v) := by
   unfold anyDescend
   obtain ⟨ha, haf⟩ := h.2 hnone
   split
   · try dsimp only
-    have hr : Out D c s (any a.st node ((collection v).getD []) a.found (level + 1) first last ignore unwrapNext) :=
+    have hr : Out F c s (any a.st node ((collection v).getD []) a.found (level + 1) first last ignore unwrapNext) :=
       any_from hA ha.1 node _ a.found _ _ _ _ _ hn (E.doc.coll hv) hcur haf
     split
     · exact ⟨fun r hr' => by simp at hr'; subst hr'; exact hr, fun h' => by simp at h'⟩
     · exact ⟨fun r hr' => by simp at hr', fun _ => hr⟩
   · exact h
 
-theorem anyStep_inv (E : Env D c ff) {item : ItemK} {any : AnyK} (hI : LTI D c ff item) (hA : LTA D c ff any)
+theorem anyStep_inv (E : Env D F c ff) {item : ItemK} {any : AnyK} (hI : LTI D F c ff item) (hA : LTA D F c ff any)
     (node : Option Node) (level first last : Nat) (ignore unwrapNext : Bool) (s : St) (a : AAcc) (v : Item)
-    (hn : AccGOpt ff node = true) (hv : D v) (hcur : D s.current) (h : AInv D c s a) :
-    AInv D c s (anyStep item any node level first last ignore unwrapNext a v) := by
+    (hn : AccGOpt ff node = true) (hv : D v) (hcur : D s.current) (h : AInv F c s a) :
+    AInv F c s (anyStep item any node level first last ignore unwrapNext a v) := by
   unfold anyStep
   split
   · exact h
   · rename_i hnone
-    have h1 := anyVisit_inv hI node level first last ignore unwrapNext s a v hn hv hcur h hnone
+    have h1 := anyVisit_inv E hI node level first last ignore unwrapNext s a v hn hv hcur h hnone
     try dsimp only
     split
     · exact h1
     · rename_i hnone1
       exact anyDescend_inv E hA node level first last ignore unwrapNext s _ v hn hv hcur h1 hnone1
 
-theorem executeAnyItem_lt (E : Env D c ff) {item : ItemK} {any : AnyK} (hI : LTI D c ff item) (hA : LTA D c ff any)
+theorem executeAnyItem_lt (E : Env D F c ff) {item : ItemK} {any : AnyK} (hI : LTI D F c ff item) (hA : LTA D F c ff any)
     (s : St) (node : Option Node) (vs : List Item) (f : Found) (level first last : Nat) (ignore unwrapNext : Bool)
-    (hn : AccGOpt ff node = true) (hvs : ∀ x ∈ vs, D x) (hcur : D s.current) (hf : AllD D f) :
-    Out D c s (executeAnyItem item any s node vs f level first last ignore unwrapNext) := by
+    (hn : AccGOpt ff node = true) (hvs : ∀ x ∈ vs, D x) (hcur : D s.current) (hf : AllD F f) :
+    Out F c s (executeAnyItem item any s node vs f level first last ignore unwrapNext) := by
   unfold executeAnyItem
   split
   · exact ⟨Out3.ok (Keep.refl s) _ (by simp), hf⟩
   · try dsimp only
-    have hinv : AInv D c s
+    have hinv : AInv F c s
         (vs.foldl (anyStep item any node level first last ignore unwrapNext) ⟨s, f, .notFound, none, none⟩) := by
-      refine foldl_inv_mem (AInv D c s) _ _ _ ?_ ?_
+      refine foldl_inv_mem (AInv F c s) _ _ _ ?_ ?_
       · exact ⟨fun r hr => by simp at hr, fun _ => ⟨Out3.ok (Keep.refl s) _ (by simp), hf⟩⟩
       · intro a v hv h
         exact anyStep_inv E hI hA node level first last ignore unwrapNext s a v hn (hvs v hv) hcur h
@@ -552,22 +565,22 @@ theorem executeAnyItem_lt (E : Env D c ff) {item : ItemK} {any : AnyK} (hI : LTI
       · simp
       · exact this
 
-theorem anyInto_out (E : Env D c ff) {any : AnyK} (hA : LTA D c ff any) {s s1 : St} (hk : Keep s s1)
+theorem anyInto_out (E : Env D F c ff) {any : AnyK} (hA : LTA D F c ff any) {s s1 : St} (hk : Keep s s1)
     (first last : Nat) (nx : Option Node) (v : Item) (f : Found) (hn : AccGOpt ff nx = true)
-    (hv : D v) (hcur : D s.current) (hf : AllD D f) : Out D c s (anyInto c any s1 first last nx v f) := by
+    (hv : D v) (hcur : D s.current) (hf : AllD F f) : Out F c s (anyInto c any s1 first last nx v f) := by
   unfold anyInto
   split
   · exact any_from hA hk nx _ f _ _ _ _ _ hn (E.doc.members _ hv) hcur hf
   · exact any_from hA hk nx _ f _ _ _ _ _ hn (E.doc.arr _ hv) hcur hf
   · exact ⟨Out3.ok hk _ (by simp), hf⟩
 
-theorem execAnyNode_lt (E : Env D c ff) {item : ItemK} {any : AnyK} (hI : LTI D c ff item) (hA : LTA D c ff any)
+theorem execAnyNode_lt (E : Env D F c ff) {item : ItemK} {any : AnyK} (hI : LTI D F c ff item) (hA : LTA D F c ff any)
     (s : St) (first last : Nat) (nx : Option Node) (v : Item) (f : Found) (hn : AccGOpt ff nx = true)
-    (hv : D v) (hcur : D s.current) (hf : AllD D f) :
-    Out D c s (execAnyNode c item any s first last nx v f) := by
+    (hv : D v) (hcur : D s.current) (hf : AllD F f) :
+    Out F c s (execAnyNode c item any s first last nx v f) := by
   unfold execAnyNode
   split
-  · have hr := next_from hI (Keep.setIgn s) nx v f hn hv hcur hf
+  · have hr := next_from E hI (Keep.setIgn s) nx v f hn hv hcur hf
     try dsimp only
     split
     · exact Out.restoreIgn hr
@@ -577,11 +590,15 @@ theorem execAnyNode_lt (E : Env D c ff) {item : ItemK} {any : AnyK} (hI : LTI D 
 /-! ## subscripts -/
 
 theorem Bound_inv {n : Node} (h : Bound n = true) :
-    (∃ i, n = .integer i none ∧ Num.inInt32 i = true) ∨ n = .const .last none := by
+    (∃ i, n = .integer i none ∧ Num.inInt32 i = true) ∨
+    (∃ x, n = .numeric x none ∧ x.isInf = false ∧ x.isNaN = false ∧ Num.inInt32 (F64.toInt64 x) = true) ∨
+    n = .const .last none := by
   unfold Bound at h
   split at h
   · exact Or.inl ⟨_, rfl, h⟩
-  · exact Or.inr rfl
+  · simp only [Bool.and_eq_true, Bool.not_eq_true'] at h
+    exact Or.inr (Or.inl ⟨_, rfl, h.1.1, h.1.2, h.2⟩)
+  · exact Or.inr (Or.inr rfl)
   · cases h
 
 theorem Sub_inv {sub : Node} (h : Sub sub = true) :
@@ -609,7 +626,7 @@ theorem getArrayIndex_fst (item : ItemK) (s : St) (n : Node) (v : Item) :
   repeat' split
   all_goals rfl
 
-theorem getArrayIndex_out {item : ItemK} (hI : LTI D c ff item) (s1 : St) (n : Node) (v : Item)
+theorem getArrayIndex_out {item : ItemK} (hI : LTI D F c ff item) (s1 : St) (n : Node) (v : Item)
     (hb : Bound n = true) (h0 : 0 ≤ s1.innermost) (hinn : c.lax = true → s1.innermost ≤ 2147483648) :
     IdxOut c s1 (getArrayIndex c item s1 n v) := by
   have hr := hI.2 s1 n v c.lax hb h0
@@ -617,18 +634,19 @@ theorem getArrayIndex_out {item : ItemK} (hI : LTI D c ff item) (s1 : St) (n : N
   unfold executeItem at hfst
   refine ⟨by rw [hfst]; exact hr.1, fun hd => ?_⟩
   rw [hfst] at hd
-  obtain ⟨he, hnf, i, hf, hi⟩ := hr.2 hd
+  obtain ⟨he, hnf, x, hf, hinv, hi⟩ := hr.2 hd
   unfold getArrayIndex executeItem
-  simp only [hnf, if_false, hf, Option.getD_some, Num.getJSONInt32]
+  simp only [hnf, if_false, hf, Option.getD_some]
   split
   · simp [idxErrOK]
   · rename_i heq
     refine ⟨rfl, fun hlx => ?_⟩
-    simp [hi (hinn hlx.1)] at heq
+    obtain ⟨i, hi'⟩ := hi (hinn hlx.1)
+    rw [hi'] at heq; cases heq
   · rename_i heq
-    split at heq <;> cases heq
+    exact absurd heq hinv
 
-theorem execSubscript_out {item : ItemK} (hI : LTI D c ff item) (s1 : St) (sub : Node)
+theorem execSubscript_out {item : ItemK} (hI : LTI D F c ff item) (s1 : St) (sub : Node)
     (v : Item) (size : Int) (hsub : Sub sub = true) (h0 : 0 ≤ s1.innermost)
     (hinn : c.lax = true → s1.innermost ≤ 2147483648) :
     IdxOut c s1 (execSubscript c item s1 sub v size) := by
@@ -672,10 +690,10 @@ theorem execSubscript_out {item : ItemK} (hI : LTI D c ff item) (s1 : St) (sub :
 end Steps
 
 section Index
-variable {D : Item → Prop} {c : Ctx} {ff : Bool}
+variable {D F : Item → Prop} {c : Ctx} {ff : Bool}
 
-theorem returnError_out {s s1 : St} (hk : Keep s s1) {f : Found} (hf : AllD D f) (e : Err)
-    (h : dirty s1 = false → e = .verbose ∧ ¬ Lx c s) : Out D c s (returnError s1 f e) := by
+theorem returnError_out {s s1 : St} (hk : Keep s s1) {f : Found} (hf : AllD F f) (e : Err)
+    (h : dirty s1 = false → e = .verbose ∧ ¬ Lx c s) : Out F c s (returnError s1 f e) := by
   unfold returnError
   split
   · refine ⟨⟨hk, fun hd => ?_⟩, hf⟩
@@ -683,12 +701,12 @@ theorem returnError_out {s s1 : St} (hk : Keep s s1) {f : Found} (hf : AllD D f)
     exact ⟨Or.inr rfl, fun hlx => absurd hlx hl⟩
   · exact ⟨⟨hk, fun hd => ⟨Or.inl rfl, fun hlx => absurd hlx (h hd).2⟩⟩, hf⟩
 
-def IInv (D : Item → Prop) (c : Ctx) (s0 : St) (a : IAcc) : Prop :=
-  (∀ r, a.ret = some r → Out D c s0 r) ∧ (a.ret = none → Out3 c s0 a.st a.res a.err ∧ AllD D a.found)
+def IInv (F : Item → Prop) (c : Ctx) (s0 : St) (a : IAcc) : Prop :=
+  (∀ r, a.ret = some r → Out F c s0 r) ∧ (a.ret = none → Out3 c s0 a.st a.res a.err ∧ AllD F a.found)
 
-theorem indexElemStep_inv {item : ItemK} (hI : LTI D c ff item) (nx : Option Node)
+theorem indexElemStep_inv (E : Env D F c ff) {item : ItemK} (hI : LTI D F c ff item) (nx : Option Node)
     (s0 : St) (a : IAcc) (v : Item) (hn : AccGOpt ff nx = true) (hv : D v) (hcur : D s0.current)
-    (h : IInv D c s0 a) : IInv D c s0 (indexElemStep c item nx a v) := by
+    (h : IInv F c s0 a) : IInv F c s0 (indexElemStep c item nx a v) := by
   unfold indexElemStep
   split
   · exact h
@@ -702,16 +720,16 @@ theorem indexElemStep_inv {item : ItemK} (hI : LTI D c ff item) (nx : Option Nod
         simp at hr'; subst hr'
         exact ⟨Out3.ok ha.1 _ (by simp), AllD.none⟩
       · try dsimp only
-        have hr := next_from hI ha.1 nx v a.found hn hv hcur haf
+        have hr := next_from E hI ha.1 nx v a.found hn hv hcur haf
         split
         · exact ⟨fun r hr' => by simp at hr'; subst hr'; exact hr, fun h' => by simp at h'⟩
         · exact ⟨fun r hr' => by simp at hr', fun _ => hr⟩
 
-theorem indexSubStep_inv {item : ItemK} (hI : LTI D c ff item) (nx : Option Node)
+theorem indexSubStep_inv (E : Env D F c ff) {item : ItemK} (hI : LTI D F c ff item) (nx : Option Node)
     (xs : List Item) (v : Item) (s0 : St) (a : IAcc) (sub : Node) (hn : AccGOpt ff nx = true)
     (hsub : Sub sub = true) (h0 : 0 ≤ s0.innermost) (hinn : c.lax = true → s0.innermost ≤ 2147483648)
-    (hxs : ∀ x ∈ xs, D x) (hcur : D s0.current) (h : IInv D c s0 a) :
-    IInv D c s0 (indexSubStep c item nx xs v a sub) := by
+    (hxs : ∀ x ∈ xs, D x) (hcur : D s0.current) (h : IInv F c s0 a) :
+    IInv F c s0 (indexSubStep c item nx xs v a sub) := by
   unfold indexSubStep
   split
   · exact h
@@ -730,13 +748,13 @@ theorem indexSubStep_inv {item : ItemK} (hI : LTI D c ff item) (nx : Option Node
       exact ⟨this.1, fun hlx => this.2 (hlx.keep ha.1)⟩
     · rename_i s1 from_ to_ heq
       unfold IdxOut at hs; rw [heq] at hs
-      refine foldl_inv_mem (IInv D c s0) _ _ _ ?_ ?_
+      refine foldl_inv_mem (IInv F c s0) _ _ _ ?_ ?_
       · refine ⟨fun r hr' => by simp [hnone] at hr', fun _ => ⟨⟨ha.1.trans hs.1, fun hd => ?_⟩, haf⟩⟩
         exact ha.2 (hs.1.clean hd)
       · intro a' v' hv' h'
-        exact indexElemStep_inv hI nx s0 a' v' hn (hxs v' (sliceRange_mem hv')) hcur h'
+        exact indexElemStep_inv E hI nx s0 a' v' hn (hxs v' (sliceRange_mem hv')) hcur h'
 
-theorem arrayOf_mem (E : Env D c ff) {v : Item} {xs : List Item} (h : arrayOf c v = some xs) (hv : D v) :
+theorem arrayOf_mem (E : Env D F c ff) {v : Item} {xs : List Item} (h : arrayOf c v = some xs) (hv : D v) :
     (c.lax = true → xs.length ≤ 2147483648) ∧ ∀ x ∈ xs, D x := by
   unfold arrayOf at h
   split at h
@@ -761,10 +779,10 @@ theorem Out3.restoreInn {s st : St} {k : Int} {status : Status} {err : Option Er
     Out3 c s { st with innermost := s.innermost } status err :=
   ⟨⟨h.1.current, rfl, h.1.ign, h.1.panicked, h.1.budget, h.1.mono⟩, fun hd => h.2 hd⟩
 
-theorem execArrayIndex_lt (E : Env D c ff) {item : ItemK} (hI : LTI D c ff item) (s : St) (subs : List Node)
+theorem execArrayIndex_lt (E : Env D F c ff) {item : ItemK} (hI : LTI D F c ff item) (s : St) (subs : List Node)
     (nx : Option Node) (v : Item) (f : Found) (hsubs : subs.all Sub = true) (hn : AccGOpt ff nx = true)
-    (hv : D v) (hcur : D s.current) (hf : AllD D f) :
-    Out D c s (execArrayIndex c item s subs nx v f) := by
+    (hv : D v) (hcur : D s.current) (hf : AllD F f) :
+    Out F c s (execArrayIndex c item s subs nx v f) := by
   unfold execArrayIndex
   split
   · rename_i hnone
@@ -773,12 +791,12 @@ theorem execArrayIndex_lt (E : Env D c ff) {item : ItemK} (hI : LTI D c ff item)
   · rename_i xs hxs
     try dsimp only
     have hmem := arrayOf_mem E hxs hv
-    have hinv : IInv D c { s with innermost := xs.length }
+    have hinv : IInv F c { s with innermost := xs.length }
         (subs.foldl (indexSubStep c item nx xs v) ⟨{ s with innermost := xs.length }, f, .notFound, none, none⟩) := by
-      refine foldl_inv_mem (IInv D c { s with innermost := xs.length }) _ _ _ ?_ ?_
+      refine foldl_inv_mem (IInv F c { s with innermost := xs.length }) _ _ _ ?_ ?_
       · exact ⟨fun r hr => by simp at hr, fun _ => ⟨Out3.ok (Keep.refl _) _ (by simp), hf⟩⟩
       · intro a sub hsub h
-        refine indexSubStep_inv hI nx xs v _ a sub hn (List.all_eq_true.mp hsubs sub hsub) ?_ ?_ hmem.2 hcur h
+        refine indexSubStep_inv E hI nx xs v _ a sub hn (List.all_eq_true.mp hsubs sub hsub) ?_ ?_ hmem.2 hcur h
         · show (0 : Int) ≤ (xs.length : Int); omega
         · intro hl
           show (xs.length : Int) ≤ 2147483648
@@ -795,14 +813,14 @@ end Index
 /-! ## predicates -/
 
 section Preds
-variable {D : Item → Prop} {c : Ctx} {ff : Bool}
+variable {D F : Item → Prop} {c : Ctx} {ff : Bool}
 
-theorem optUnwrapResult_out (E : Env D c ff) {item : ItemK} (hI : LTI D c ff item) (s : St) (n : Node) (v : Item)
+theorem optUnwrapResult_out (E : Env D F c ff) {item : ItemK} (hI : LTI D F c ff item) (s : St) (n : Node) (v : Item)
     (unwrap : Bool) (l : List Item) (hn : AccG ff n = true) (hv : D v) (hcur : D s.current)
-    (hl : AllD D (some l)) : Out D c s (optUnwrapResult c item s n v unwrap l) := by
+    (hl : AllD F (some l)) : Out F c s (optUnwrapResult c item s n v unwrap l) := by
   unfold optUnwrapResult
   split
-  · have hr : Out D c s (executeItem c item s n v (some [])) := hI.1 _ _ _ _ _ hn hv hcur AllD.nil
+  · have hr : Out F c s (executeItem c item s n v (some [])) := hI.1 _ _ _ _ _ hn hv hcur AllD.nil
     try dsimp only
     split
     · rename_i hfail
@@ -813,19 +831,19 @@ theorem optUnwrapResult_out (E : Env D c ff) {item : ItemK} (hI : LTI D c ff ite
       simp at hl'; subst hl'
       rcases List.mem_append.mp hx with h1 | h1
       · exact hl l rfl x h1
-      · refine E.doc.unwrap (l := (executeItem c item s n v (some [])).found.getD []) ?_ x h1
+      · refine unwrapSeq_closed E.farr (l := (executeItem c item s n v (some [])).found.getD []) ?_ x h1
         intro y hy
         cases hfd : (executeItem c item s n v (some [])).found with
         | none => rw [hfd] at hy; simp at hy
         | some l2 => rw [hfd] at hy; exact hr.2 l2 hfd y (by simpa using hy)
   · exact hI.1 _ _ _ _ _ hn hv hcur hl
 
-theorem optUnwrapResultSilent_out (E : Env D c ff) {item : ItemK} (hI : LTI D c ff item) (s : St) (n : Node)
+theorem optUnwrapResultSilent_out (E : Env D F c ff) {item : ItemK} (hI : LTI D F c ff item) (s : St) (n : Node)
     (v : Item) (unwrap : Bool) (f : Found) (hn : AccG ff n = true) (hv : D v) (hcur : D s.current)
-    (hf : AllD D f) : Out D c s (optUnwrapResultSilent c item s n v unwrap f) := by
+    (hf : AllD F f) : Out F c s (optUnwrapResultSilent c item s n v unwrap f) := by
   unfold optUnwrapResultSilent
-  have key : ∀ r : Res, Out D c { s with verbose := false } r →
-      Out D c s { r with st := { r.st with verbose := s.verbose } } := by
+  have key : ∀ r : Res, Out F c { s with verbose := false } r →
+      Out F c s { r with st := { r.st with verbose := s.verbose } } := by
     intro r h
     exact ⟨⟨((Keep.setVerbose s false).trans h.1.1).trans (Keep.setVerbose _ _), fun hd => h.1.2 hd⟩, h.2⟩
   cases f with
@@ -883,15 +901,15 @@ theorem predicateTail_out {s s1 : St} (hk : Keep s s1) (cb : Item → Item → C
       · exact OutP.ok hk
       · exact OutP.ok hk
 
-theorem executePredicate_out (E : Env D c ff) {item : ItemK} (hI : LTI D c ff item) (s : St) (left : Node)
+theorem executePredicate_out (E : Env D F c ff) {item : ItemK} (hI : LTI D F c ff item) (s : St) (left : Node)
     (right : Option Node) (v : Item) (unwrapRight : Bool) (cb : Item → Item → CbOut)
     (hleft : AccG ff left = true) (hright : ∀ rn, right = some rn → AccG ff rn = true)
-    (hv : D v) (hcur : D s.current) (hcb : ∀ l r, D l → D r → CbClean (cb l r)) :
+    (hv : D v) (hcur : D s.current) (hcb : ∀ l r, F l → F r → CbClean (cb l r)) :
     OutP c s (executePredicate c item s left right v unwrapRight cb).st
       (executePredicate c item s left right v unwrapRight cb).err := by
   unfold executePredicate
   have hl := optUnwrapResultSilent_out E hI s left v true (some []) hleft hv hcur AllD.nil
-  have getD_mem : ∀ r : Res, AllD D r.found → ∀ x ∈ r.found.getD [], D x := by
+  have getD_mem : ∀ r : Res, AllD F r.found → ∀ x ∈ r.found.getD [], F x := by
     intro r hr x hx
     cases hfd : r.found with
     | none => rw [hfd] at hx; simp at hx
@@ -910,7 +928,7 @@ theorem executePredicate_out (E : Env D c ff) {item : ItemK} (hI : LTI D c ff it
       · exact predicateTail_out (hl.1.1.trans hr.1.1) cb _ _
           (fun l hl' r hr' => hcb l r (getD_mem _ hl.2 l hl') (getD_mem _ hr.2 r hr'))
     · exact predicateTail_out hl.1.1 cb _ _
-        (fun l hl' r hr' => hcb l r (getD_mem _ hl.2 l hl') (by simp at hr'; subst hr'; exact E.doc.null))
+        (fun l hl' r hr' => hcb l r (getD_mem _ hl.2 l hl') (by simp at hr'; subst hr'; exact E.toF _ E.doc.null))
 
 theorem startsWith_clean (l r : Item) : CbClean (startsWith l r) := by
   unfold startsWith; split <;> simp [CbClean]
@@ -961,7 +979,7 @@ theorem binaryBool_cmp_eq {item : ItemK} {bool : BoolK} (s : St) (op : BinOp) (l
       executePredicate c item s ln (some rn) v true (compareItems c op) := by
   cases op <;> simp [isCompareOp] at h <;> simp [executeBinaryBoolItem, isCompareOp]
 
-theorem executeBinaryBoolItem_out (E : Env D c ff) {item : ItemK} {bool : BoolK} (hI : LTI D c ff item)
+theorem executeBinaryBoolItem_out (E : Env D F c ff) {item : ItemK} {bool : BoolK} (hI : LTI D F c ff item)
     (hB : LTB D c ff bool) (s : St) (op : BinOp) (l r nx : Option Node) (v : Item)
     (hn : PredG ff (.binary op l r nx) = true) (hv : D v) (hcur : D s.current) :
     OutP c s (executeBinaryBoolItem c item bool s op l r v).st (executeBinaryBoolItem c item bool s op l r v).err := by
@@ -991,14 +1009,14 @@ theorem executeBinaryBoolItem_out (E : Env D c ff) {item : ItemK} {bool : BoolK}
   · by_cases hcmp : isCompareOp op = true
     · rw [binaryBool_cmp_eq s op ln rn v hcmp]
       exact executePredicate_out E hI s ln (some rn) v true (compareItems c op) hp1
-        (fun rn' h => by cases h; exact hp2) hv hcur (fun l r hl hr => (E.filt hff).cmp op l r hcmp hl hr)
+        (fun rn' h => by cases h; exact hp2) hv hcur (fun l r hl hr => (E.filt hff).cmp op l r hcmp (E.ofF hff l hl) (E.ofF hff r hr))
     · have : op = .startsWith := by cases op <;> simp_all [isPredOp, isCompareOp]
       subst this
       simp only [executeBinaryBoolItem]
       exact executePredicate_out E hI s ln (some rn) v false startsWith hp1
         (fun rn' h => by cases h; exact hp2) hv hcur (fun l r _ _ => startsWith_clean l r)
 
-theorem executeUnaryBoolItem_out (E : Env D c ff) {item : ItemK} {bool : BoolK} (hI : LTI D c ff item)
+theorem executeUnaryBoolItem_out (E : Env D F c ff) {item : ItemK} {bool : BoolK} (hI : LTI D F c ff item)
     (hB : LTB D c ff bool) (s : St) (op : UnOp) (x nx : Option Node) (v : Item)
     (hn : PredG ff (.unary op x nx) = true) (hv : D v) (hcur : D s.current) :
     OutP c s (executeUnaryBoolItem c item bool s op x v).st (executeUnaryBoolItem c item bool s op x v).err := by
@@ -1032,7 +1050,7 @@ theorem executeUnaryBoolItem_out (E : Env D c ff) {item : ItemK} {bool : BoolK} 
         · exact OutP.ok hr.1.1
         · exact OutP.ok hr.1.1
 
-theorem executeBoolItem_out (E : Env D c ff) {item : ItemK} {bool : BoolK} (hI : LTI D c ff item)
+theorem executeBoolItem_out (E : Env D F c ff) {item : ItemK} {bool : BoolK} (hI : LTI D F c ff item)
     (hB : LTB D c ff bool) (s : St) (n : Node) (v : Item) (chn : Bool)
     (hn : PredG ff n = true) (hnx : chn = false → n.next = none) (hv : D v) (hcur : D s.current) :
     OutP c s (executeBoolItem c item bool s n v chn).st (executeBoolItem c item bool s n v chn).err := by
@@ -1061,15 +1079,15 @@ theorem executeNestedBoolItem_out {bool : BoolK} (hB : LTB D c ff bool) (s : St)
   have h := hB { s with current := v } n v false hn (fun _ => hnx) hv hv
   exact ⟨⟨rfl, h.1.innermost, h.1.ign, h.1.panicked, h.1.budget, h.1.mono⟩, fun hd => h.2 hd⟩
 
-theorem predItem_D (E : Env D c ff) (p : Pred) : D (predItem p) := by
+theorem predItem_D (E : Env D F c ff) (p : Pred) : D (predItem p) := by
   cases p
   · exact E.doc.bool _
   · exact E.doc.bool _
   · exact E.doc.null
 
-theorem appendBoolResult_lt (E : Env D c ff) {item : ItemK} (hI : LTI D c ff item) (s : St) (nx : Option Node)
+theorem appendBoolResult_lt (E : Env D F c ff) {item : ItemK} (hI : LTI D F c ff item) (s : St) (nx : Option Node)
     (f : Found) (p : PRes) (hp : OutP c s p.st p.err) (hn : AccGOpt ff nx = true) (hcur : D s.current)
-    (hf : AllD D f) : Out D c s (appendBoolResult c item nx f p) := by
+    (hf : AllD F f) : Out F c s (appendBoolResult c item nx f p) := by
   unfold appendBoolResult
   split
   · rename_i e he
@@ -1079,7 +1097,7 @@ theorem appendBoolResult_lt (E : Env D c ff) {item : ItemK} (hI : LTI D c ff ite
     exact ⟨this.1, fun hlx => by cases this.2 hlx⟩
   · split
     · exact ⟨Out3.ok hp.1 _ (by simp), hf⟩
-    · exact next_from hI hp.1 nx _ f hn (predItem_D E _) hcur hf
+    · exact next_from E hI hp.1 nx _ f hn (predItem_D E _) hcur hf
 
 /-- the unary nodes of the class: a filter, or `!`, `is unknown`, `exists` in chain position -/
 theorem AccG_unary_inv {op : UnOp} {x nx : Option Node} (h : AccG ff (.unary op x nx) = true) :
@@ -1095,11 +1113,11 @@ theorem AccG_unary_inv {op : UnOp} {x nx : Option Node} (h : AccG ff (.unary op 
     · exact ⟨h.2, Or.inr ⟨Or.inr (Or.inl rfl), by simp [PredG, h.1.1.2, h.1.2]⟩⟩
     · exact ⟨h.2, Or.inl ⟨rfl, xn, rfl, h.1.1.2, h.1.2⟩⟩
 
-theorem execUnaryNode_lt (E : Env D c ff) {item : ItemK} {bool : BoolK} {any : AnyK} (hI : LTI D c ff item)
-    (hB : LTB D c ff bool) (hA : LTA D c ff any) (s : St) (op : UnOp) (x nx : Option Node) (v : Item)
+theorem execUnaryNode_lt (E : Env D F c ff) {item : ItemK} {bool : BoolK} {any : AnyK} (hI : LTI D F c ff item)
+    (hB : LTB D c ff bool) (hA : LTA D F c ff any) (s : St) (op : UnOp) (x nx : Option Node) (v : Item)
     (f : Found) (unwrap : Bool) (hn : AccG ff (.unary op x nx) = true)
-    (hv : D v) (hcur : D s.current) (hf : AllD D f) :
-    Out D c s (execUnaryNode c item bool any s (.unary op x nx) op x nx v f unwrap) := by
+    (hv : D v) (hcur : D s.current) (hf : AllD F f) :
+    Out F c s (execUnaryNode c item bool any s (.unary op x nx) op x nx v f unwrap) := by
   obtain ⟨hnx, hcase⟩ := AccG_unary_inv hn
   rcases hcase with ⟨rfl, cond, rfl, hp, hcn⟩ | ⟨hop, hp⟩
   · simp only [execUnaryNode]
@@ -1115,7 +1133,7 @@ theorem execUnaryNode_lt (E : Env D c ff) {item : ItemK} {bool : BoolK} {any : A
         rw [(hb.2 hd).2 hlx] at hsome; simp at hsome
       · split
         · exact ⟨Out3.ok hb.1 _ (by simp), hf⟩
-        · exact next_from hI hb.1 nx v f hnx hv hcur hf
+        · exact next_from E hI hb.1 nx v f hnx hv hcur hf
   · have hb := hB s (.unary op x nx) v true hp (fun h => by cases h) hv hcur
     rcases hop with rfl | rfl | rfl <;> simp only [execUnaryNode] <;>
       exact appendBoolResult_lt E hI s nx f _ hb hnx hcur hf
@@ -1139,21 +1157,21 @@ theorem AccG_binary_inv {op : BinOp} {l r nx : Option Node} (h : AccG ff (.binar
         · exact Or.inl hc
         · exact Or.inr ⟨⟨⟨hff, hc.1.1⟩, hc.1.2⟩, hc.2⟩
 
-theorem execBinaryNode_lt (E : Env D c ff) {item : ItemK} {bool : BoolK} {any : AnyK} (hI : LTI D c ff item)
+theorem execBinaryNode_lt (E : Env D F c ff) {item : ItemK} {bool : BoolK} {any : AnyK} (hI : LTI D F c ff item)
     (hB : LTB D c ff bool) (s : St) (op : BinOp) (l r nx : Option Node) (v : Item)
     (f : Found) (unwrap : Bool) (hn : AccG ff (.binary op l r nx) = true)
-    (hv : D v) (hcur : D s.current) (hf : AllD D f) :
-    Out D c s (execBinaryNode c item bool any s (.binary op l r nx) op l r nx v f unwrap) := by
+    (hv : D v) (hcur : D s.current) (hf : AllD F f) :
+    Out F c s (execBinaryNode c item bool any s (.binary op l r nx) op l r nx v f unwrap) := by
   obtain ⟨hnx, hop, hp⟩ := AccG_binary_inv hn
   unfold execBinaryNode
   simp only [hop, if_true]
   exact appendBoolResult_lt E hI s nx f _ (hB s _ v true hp (fun h => by cases h) hv hcur) hnx hcur hf
 
-theorem execRegexNode_lt (E : Env D c ff) {item : ItemK} {bool : BoolK} (hI : LTI D c ff item)
+theorem execRegexNode_lt (E : Env D F c ff) {item : ItemK} {bool : BoolK} (hI : LTI D F c ff item)
     (hB : LTB D c ff bool) (s : St) (x : Node) (pat : List Char) (fl : Nat) (nx : Option Node) (v : Item)
     (f : Found) (hn : AccG ff (.regex x pat fl nx) = true)
-    (hv : D v) (hcur : D s.current) (hf : AllD D f) :
-    Out D c s (appendBoolResult c item nx f (bool s (.regex x pat fl nx) v true)) := by
+    (hv : D v) (hcur : D s.current) (hf : AllD F f) :
+    Out F c s (appendBoolResult c item nx f (bool s (.regex x pat fl nx) v true)) := by
   have h : (ff = true ∧ AccG ff x = true) ∧ AccGOpt ff nx = true := by simpa [AccG] using hn
   exact appendBoolResult_lt E hI s nx f _
     (hB s _ v true (by simp only [PredG, Bool.and_eq_true]; exact h.1) (fun h => by cases h) hv hcur) h.2 hcur hf
@@ -1163,20 +1181,20 @@ end Preds
 /-! ## dispatch and the induction over fuel -/
 
 section Dispatch
-variable {D : Item → Prop} {c : Ctx} {ff : Bool}
+variable {D F : Item → Prop} {c : Ctx} {ff : Bool}
 
-theorem dispatch_lt (E : Env D c ff) {item : ItemK} {bool : BoolK} {any : AnyK} (hI : LTI D c ff item)
-    (hB : LTB D c ff bool) (hA : LTA D c ff any) (s : St) (n : Node) (v : Item) (f : Found) (unwrap : Bool)
-    (hn : AccG ff n = true) (hv : D v) (hcur : D s.current) (hf : AllD D f) :
-    Out D c s (dispatch c item bool any s n v f unwrap) := by
+theorem dispatch_lt (E : Env D F c ff) {item : ItemK} {bool : BoolK} {any : AnyK} (hI : LTI D F c ff item)
+    (hB : LTB D c ff bool) (hA : LTA D F c ff any) (s : St) (n : Node) (v : Item) (f : Found) (unwrap : Bool)
+    (hn : AccG ff n = true) (hv : D v) (hcur : D s.current) (hf : AllD F f) :
+    Out F c s (dispatch c item bool any s n v f unwrap) := by
   unfold dispatch
   split
   · rename_i k nx
     have h : accConst k = true ∧ AccGOpt ff nx = true := by simpa [AccG] using hn
     exact execConstNode_lt E hI hA _ _ _ _ _ _ _ hn h.1 h.2 hv hcur hf
-  · exact execLiteral_lt hI _ _ _ _ (by simpa [AccG] using hn) (E.doc.str _) hcur hf
-  · exact execLiteral_lt hI _ _ _ _ (by simpa [AccG] using hn) (E.doc.int _) hcur hf
-  · exact execLiteral_lt hI _ _ _ _ (by simpa [AccG] using hn) (E.doc.flt _) hcur hf
+  · exact execLiteral_lt E hI _ _ _ _ (by simpa [AccG] using hn) (E.doc.str _) hcur hf
+  · exact execLiteral_lt E hI _ _ _ _ (by simpa [AccG] using hn) (E.doc.int _) hcur hf
+  · exact execLiteral_lt E hI _ _ _ _ (by simpa [AccG] using hn) (E.doc.flt _) hcur hf
   · simp [AccG] at hn
   · exact execKeyNode_lt E hI hA _ _ _ _ _ _ _ hn (by simpa [AccG] using hn) hv hcur hf
   · exact execBinaryNode_lt E hI hB _ _ _ _ _ _ _ _ hn hv hcur hf
@@ -1193,14 +1211,23 @@ theorem dispatch_lt (E : Env D c ff) {item : ItemK} {bool : BoolK} {any : AnyK} 
 theorem dispatch_bound (item : ItemK) (bool : BoolK) (any : AnyK)
     (s : St) (n : Node) (v : Item) (unwrap : Bool) (hb : Bound n = true) (h0 : 0 ≤ s.innermost) :
     BoundOut s (dispatch c item bool any s n v (some []) unwrap) := by
-  rcases Bound_inv hb with ⟨i, rfl, hi⟩ | rfl
+  rcases Bound_inv hb with ⟨i, rfl, hi⟩ | ⟨x, rfl, h1, h2, h3⟩ | rfl
   · simp only [dispatch, execLiteral, executeNextItem, Found.append]
-    refine ⟨Keep.refl s, fun _ => ⟨rfl, by simp, i, by simp, fun _ => hi⟩⟩
+    refine ⟨Keep.refl s, fun _ => ⟨rfl, by simp, .int i, by simp, ?_, fun _ => ⟨i, ?_⟩⟩⟩
+    · simp only [Num.getJSONInt32]; split <;> simp
+    · simp [Num.getJSONInt32, hi]
+  · simp only [dispatch, execLiteral, executeNextItem, Found.append]
+    refine ⟨Keep.refl s, fun _ => ⟨rfl, by simp, .flt x, by simp, ?_, fun _ => ⟨F64.toInt64 x, ?_⟩⟩⟩
+    · simp [Num.getJSONInt32, h1, h2, h3]
+    · simp [Num.getJSONInt32, h1, h2, h3]
   · have hlt : ¬ s.innermost < 0 := by omega
     simp only [dispatch, execConstNode, execLastConst, hlt, executeNextItem, Found.append]
-    refine ⟨Keep.refl s, fun _ => ⟨rfl, by simp, s.innermost - 1, by simp, fun hle => ?_⟩⟩
-    simp only [Num.inInt32, Num.minInt32, Num.maxInt32, Bool.and_eq_true]
-    constructor <;> (apply decide_eq_true; omega)
+    refine ⟨Keep.refl s, fun _ => ⟨rfl, by simp, .int (s.innermost - 1), by simp, ?_, fun hle => ⟨s.innermost - 1, ?_⟩⟩⟩
+    · simp only [Num.getJSONInt32]; split <;> simp
+    · have : Num.inInt32 (s.innermost - 1) = true := by
+        simp only [Num.inInt32, Num.minInt32, Num.maxInt32, Bool.and_eq_true]
+        constructor <;> (apply decide_eq_true; omega)
+      simp [Num.getJSONInt32, this]
 
 theorem poll_some {s s' : St} (h : poll s = some s') : Keep s s' := by
   unfold poll at h
@@ -1220,8 +1247,8 @@ theorem poll_none {s : St} (h : poll s = none) : Keep s { s with sawCancel := tr
   · cases h
 
 /-- **the invariant holds for the three dispatchers, for every fuel** -/
-theorem lt_all (E : Env D c ff) : ∀ fuel : Nat,
-    LTI D c ff (xItem c fuel) ∧ LTB D c ff (xBool c fuel) ∧ LTA D c ff (xAny c fuel) := by
+theorem lt_all (E : Env D F c ff) : ∀ fuel : Nat,
+    LTI D F c ff (xItem c fuel) ∧ LTB D c ff (xBool c fuel) ∧ LTA D F c ff (xAny c fuel) := by
   intro fuel
   induction fuel with
   | zero =>
@@ -1251,16 +1278,16 @@ theorem lt_all (E : Env D c ff) : ∀ fuel : Nat,
         have hd := dispatch_bound (c := c) (xItem c fuel) (xBool c fuel) (xAny c fuel) s' n v u hb
           (by rw [hk.innermost]; exact h0)
         refine ⟨hk.trans hd.1, fun hcl => ?_⟩
-        obtain ⟨h1, h2, i, h3, h4⟩ := hd.2 hcl
-        exact ⟨h1, h2, i, h3, fun hle => h4 (by rw [hk.innermost]; exact hle)⟩
+        obtain ⟨h1, h2, x, h3, h4, h5⟩ := hd.2 hcl
+        exact ⟨h1, h2, x, h3, h4, fun hle => h5 (by rw [hk.innermost]; exact hle)⟩
     · simp only [xBool]
       exact executeBoolItem_out E hI hB s n v chn hn hnx hv hcur
     · simp only [xAny]
       exact executeAnyItem_lt E hI hA s node vs f l a b i u hn hvs hcur hf
 
-theorem xItem_lt (E : Env D c ff) (fuel : Nat) (s : St) (n : Node) (v : Item) (f : Found) (u : Bool)
-    (hn : AccG ff n = true) (hv : D v) (hcur : D s.current) (hf : AllD D f) :
-    Out D c s (xItem c fuel s n v f u) := (lt_all E fuel).1.1 s n v f u hn hv hcur hf
+theorem xItem_lt (E : Env D F c ff) (fuel : Nat) (s : St) (n : Node) (v : Item) (f : Found) (u : Bool)
+    (hn : AccG ff n = true) (hv : D v) (hcur : D s.current) (hf : AllD F f) :
+    Out F c s (xItem c fuel s n v f u) := (lt_all E fuel).1.1 s n v f u hn hv hcur hf
 
 end Dispatch
 
